@@ -57,6 +57,24 @@ def build(cfg):
         except Exception:
             pass
         obj.N = N
+    if cfg.get("reused"):
+        # the same object has just been used on ANOTHER sample of the same length (the reflected, reversed one): a test
+        # object lives as long as its assertion and sees every round's data; nothing of an earlier call may leak
+        import numpy as _np
+        inner, state = obj.test, {"first": True}
+
+        def test_after_other_sample(x, *a, **k):
+            if state["first"]:
+                state["first"] = False
+                try:
+                    with _np.errstate(all="ignore"):
+                        xa = _np.asarray(x, dtype=float)
+                        inner(_np.ascontiguousarray(float(obj.u) - xa[::-1]), *a, **k)
+                except Exception:
+                    pass
+            return inner(x, *a, **k)
+
+        obj.test = test_after_other_sample
     return obj
 
 
@@ -146,6 +164,8 @@ def gen_cfg(rng, combo=None, finite=None, n_max=12, allow_not_random=True, u=Non
         cfg["N_warm"] = rng.choice((N + 1, N + 7, 2 * N, max(1, N - 1), 1000))
     if u == 1.0 and rng.random() < 0.3:
         cfg["int_dtype"] = True
+    if rng.random() < 0.15:
+        cfg["reused"] = True
     return cfg
 
 
